@@ -838,6 +838,53 @@ func genQuery(r *rand.Rand, times []int64, fields []callSpec) querySpec {
 	return q
 }
 
+// genEdgeProbe: a single call whose time range ends (or starts) exactly on the row with
+// which a stored segment of the series begins (or ends) — row positions that are multiples of
+// max-rows-per-segment — and is as narrow as that one row, its neighbour, or reaches back to
+// the beginning: the statistics path decides per segment whether to read it, skip it or take
+// its stored statistics, and the edges of those decisions are where it goes wrong.
+func genEdgeProbe(r *rand.Rand, times []int64, fields []callSpec, seg, k int) querySpec {
+	f := fields[r.IntN(len(fields))]
+	q := querySpec{Func: []string{"max", "min", "last", "first", "count", "sum"}[k%6], Field: f.Field, Kind: f.Kind, Bound: true}
+	if (k/6)%2 == 1 {
+		q.Group = "host"
+	}
+	if seg <= 0 || seg >= len(times) {
+		seg = 8
+	}
+	n := len(times) / seg
+	if n < 1 {
+		n = 1
+	}
+	i := seg * (1 + r.IntN(n)) // first row of a segment (never the very first row)
+	if i >= len(times) {
+		i = len(times) - 1
+	}
+	lo := times[0] - 5_000_000_000
+	if (k/3)%2 == 0 {
+		// the range ENDS on the first row of a segment
+		q.TMax = times[i]
+		q.TMin = []int64{times[i], times[i-1], times[i/2], lo}[r.IntN(4)]
+	} else {
+		// the range STARTS on the last row of a segment
+		q.TMin = times[i-1]
+		hi := times[len(times)-1] + 5_000_000_000
+		q.TMax = []int64{times[i-1], times[i], times[(i+len(times))/2], hi}[r.IntN(4)]
+	}
+	q.Desc = r.IntN(4) == 0
+	return q
+}
+
+func segmentRows(config string) int {
+	switch {
+	case strings.HasSuffix(config, "-8"):
+		return 8
+	case strings.HasSuffix(config, "-3"):
+		return 3
+	}
+	return 0
+}
+
 func rangeClass(q querySpec, times []int64) string {
 	if !q.Bound {
 		return "unbounded"
@@ -898,6 +945,7 @@ func (rn *runner) run(h *history, worker int, only *querySpec) {
 	disableBackground(s)
 	u := kit.NewUniverse(1, 5, 24)
 	unknown := 0
+	edgeSeq := 0
 	// files may change only at the flush / compact / merge steps the history asks for; a
 	// change seen elsewhere means the server flushed on its own and the harness no longer
 	// knows the flush generation of every write: the history is then judged as
@@ -957,8 +1005,15 @@ func (rn *runner) run(h *history, worker int, only *querySpec) {
 				}
 			}
 			nq := c.Pick(14, 40)
+			nEdge := c.Pick(6, 12) // the last nEdge statements are segment-edge probes
+			nq += nEdge
 			for k := 0; k < nq; k++ {
 				q := genQuery(r, u.Times, numericFields(h.Kind))
+				if k >= nq-nEdge {
+					q = genEdgeProbe(r, u.Times, numericFields(h.Kind), segmentRows(h.Config), edgeSeq)
+					edgeSeq++
+					c.Count("segment-edge-probes", 1)
+				}
 				if only != nil {
 					if k > 0 {
 						break
